@@ -555,7 +555,8 @@ pub fn parse_stream(b: &[u8]) -> Result<Vec<Spanned>, (Vec<Spanned>, PErr)> {
                     let prev = b[end - 1];
                     let next = b[end];
                     let prev_closed = matches!(prev, b'}' | b']' | b'"');
-                    let next_opens = matches!(next, b'{' | b'[' | b'"' | b' ' | b'\n' | b'\t' | b'\r');
+                    // ... but a minus sign can only start a number, so it ends the token in front of it (`1e2-3`, `true-1`)
+                    let next_opens = matches!(next, b'{' | b'[' | b'"' | b' ' | b'\n' | b'\t' | b'\r' | b'-');
                     if !prev_closed && !next_opens {
                         out.push(Spanned { v, start, end });
                         return Err((out, PErr { at: end, what: "tokens touch" }));
